@@ -92,6 +92,8 @@ type Contracts struct {
 	Preds   map[string]*Pred
 	Lemmas  []*Lemma
 	Pure    []string // prefixes of FullName treated as pure
+	Sinks   []string // callee key prefixes of formatting / logging sinks (C15 secret-flow obligations)
+	Secrets []string // type strings whose printed form is secret
 	Files   []string
 	Trusted []string // human readable list of assumptions
 	Sources map[string]string // pkgpath -> file used
@@ -468,6 +470,14 @@ func (cs *Contracts) parseLine(cur **FuncContract, t, path string, ln int, pkgPa
 	case "pure":
 		for _, f := range strings.Fields(rest) {
 			cs.Pure = append(cs.Pure, f)
+		}
+	case "sink":
+		for _, f := range strings.Fields(rest) {
+			cs.Sinks = append(cs.Sinks, f)
+		}
+	case "secret":
+		for _, f := range strings.Fields(rest) {
+			cs.Secrets = append(cs.Secrets, f)
 		}
 	default:
 		return errf("unknown contract line %q", t)
